@@ -428,3 +428,79 @@ func Readlink(p string) (string, error) {
 	}
 	return n.link, nil
 }
+
+
+// dirEntry adapts info to fs.DirEntry (os.ReadDir).
+type dirEntry struct{ info }
+
+func (d dirEntry) Type() fs.FileMode          { return d.info.Mode().Type() }
+func (d dirEntry) Info() (fs.FileInfo, error) { return d.info, nil }
+
+// ReadDirEntries replaces os.ReadDir.
+func ReadDirEntries(p string) ([]os.DirEntry, error) {
+	if !On {
+		return os.ReadDir(p)
+	}
+	infos, err := ReadDir(p)
+	if err != nil {
+		return nil, err
+	}
+	out := make([]os.DirEntry, 0, len(infos))
+	for _, fi := range infos {
+		out = append(out, dirEntry{fi.(info)})
+	}
+	return out, nil
+}
+
+// WalkDir replaces filepath.WalkDir (lexical order, does not follow symlinks).
+func WalkDir(root string, fn fs.WalkDirFunc) error {
+	if !On {
+		return filepath.WalkDir(root, fn)
+	}
+	fi, err := Lstat(root)
+	if err != nil {
+		return fn(root, nil, err)
+	}
+	return walkDir(clean(root), dirEntry{fi.(info)}, fn)
+}
+
+func walkDir(p string, d fs.DirEntry, fn fs.WalkDirFunc) error {
+	if err := fn(p, d, nil); err != nil || !d.IsDir() {
+		if err == filepath.SkipDir && d.IsDir() {
+			err = nil
+		}
+		return err
+	}
+	ents, err := ReadDirEntries(p)
+	if err != nil {
+		if err = fn(p, d, err); err != nil {
+			if err == filepath.SkipDir {
+				err = nil
+			}
+			return err
+		}
+	}
+	for _, e := range ents {
+		if err := walkDir(p+"/"+e.Name(), e, fn); err != nil {
+			if err == filepath.SkipDir {
+				break
+			}
+			return err
+		}
+	}
+	return nil
+}
+
+// Walk replaces filepath.Walk.
+func Walk(root string, fn filepath.WalkFunc) error {
+	if !On {
+		return filepath.Walk(root, fn)
+	}
+	return WalkDir(root, func(p string, d fs.DirEntry, err error) error {
+		if err != nil {
+			return fn(p, nil, err)
+		}
+		fi, _ := d.Info()
+		return fn(p, fi, nil)
+	})
+}
